@@ -36,7 +36,7 @@ func (vc *FnVC) callCommon(fr *frame, st *state, c *ssa.CallCommon, res ssa.Valu
 	} else if !c.IsInvoke() {
 		fnTerm = fr.get(vc, c.Value).t
 	}
-	site := fmt.Sprintf("%s%p", fr.prefix[1:], ins)
+	site := fmt.Sprintf("%p", ins) // the same instruction in both runs, whatever the inlining depth (collisions are harmless: the assumption holds for any two calls)
 	vc.pairHook(site, fnTerm, args, pre, st, r)
 	return r
 }
@@ -114,6 +114,9 @@ func (vc *FnVC) callCommon0(fr *frame, st *state, c *ssa.CallCommon, res ssa.Val
 			return vc.defaultCall(fr, st, callee, c, args, resType, key)
 		}
 		inline := sp != nil && sp.Inline
+		if vc.pair != nil && vc.pair.forceInline != nil && vc.pair.forceInline[callee] && callee.Blocks != nil {
+			inline = true
+		}
 		if sp == nil && vc.eng.autoInline(callee) {
 			inline = true
 		}
@@ -352,6 +355,9 @@ func (vc *FnVC) applyContractN(fr *frame, st *state, sp *FuncSpec, key string, n
 		vc.assume("true", fmt.Sprintf("(<= %s %s)", res.t, st.alloc))
 	}
 	vc.bindResults(vars, res, callee)
+	for k, v := range vc.declareLetsP(cfr, sp, st, vars, true) {
+		vars[k] = v
+	}
 	for _, cl := range sp.Clauses {
 		if cl.Kind != "ensures" && cl.Kind != "ghostensures" || light && len(names2) > 0 {
 			// two-run VCs in light mode use only the frame of the callee and its determinism
